@@ -453,8 +453,10 @@ impl<K: StructuralWritable, V: StructuralWritable> Encoder<MapOperation<K, V>>
 #[derive(Debug, Default, Clone, Copy)]
 struct MessageEncoder<Inner>(Inner);
 
+/// The flag records that the current frame has been handed to the inner decoder, which might have consumed
+/// its header already (so that the head of the buffer is no longer a frame header).
 #[derive(Debug, Default, Clone, Copy)]
-struct MessageDecoder<Inner>(Inner);
+struct MessageDecoder<Inner>(Inner, bool);
 
 impl<K, V, Inner> Encoder<MapMessage<K, V>> for MessageEncoder<Inner>
 where
@@ -497,7 +499,14 @@ where
     type Error = FrameIoError;
 
     fn decode(&mut self, src: &mut BytesMut) -> Result<Option<Self::Item>, Self::Error> {
-        let MessageDecoder(inner) = self;
+        let MessageDecoder(inner, delegated) = self;
+        if *delegated {
+            let result = inner.decode(src);
+            if !matches!(result, Ok(None)) {
+                *delegated = false;
+            }
+            return Ok(result?.map(Into::into));
+        }
         if src.remaining() < TAG_SIZE + LEN_SIZE {
             src.reserve(TAG_SIZE + LEN_SIZE);
             return Ok(None);
@@ -525,8 +534,9 @@ where
                 }))
             }
             _ => {
-                let result = inner.decode(src)?;
-                Ok(result.map(Into::into))
+                let result = inner.decode(src);
+                *delegated = matches!(result, Ok(None));
+                Ok(result?.map(Into::into))
             }
         }
     }
